@@ -210,7 +210,7 @@ def st_c18(ctx):
     work = ctx.scratch("verif_st_")
     scen = fdv.Scenario("file.gz.deep.store_overwrite", "file", op="store_overwrite")
     dry, meta = fdv.run_once(work, scen, None)
-    k = next(i for i, c in enumerate(meta["calls"]) if c[0] == "write") + 2
+    k = next(i for i, c in enumerate(meta["calls"]) if c[0] == "write")      # the (buffered) data write
     crash, cmeta = fdv.run_once(work, scen, {"k": k, "mode": "torn", "err": ""})
     fail, fmeta = fdv.run_once(work, scen, {"k": k, "mode": "fail", "err": "ENOSPC"})
     ok = True
